@@ -81,6 +81,10 @@ SPEC int neighbour(const TREE_T *t, uint64_t r, uint64_t key, uint64_t p) {
   uint64_t v = T_IDX(t)[p], c = T_IDX(t)[r];
   return v == UNUSED || !((c < v && v < key) || (key < v && v < c));
 }
+SPEC int found_or_adjacent(const TREE_T *t, uint64_t r, uint64_t key) {
+  for (uint64_t p = 1; p <= CAP; p++) if (p <= T_RS(t)) { if (T_IDX(t)[p] == key && r != p) return 0; if (!neighbour(t, r, key, p)) return 0; }
+  return 1;
+}
 uint64_t G_p, G_q;   /* ghost positions */
 uint64_t G_max_key; TREE_T G_tree;
 uint64_t FN_bisect_in(const TREE_T *t, uint64_t first, uint64_t last, uint64_t key)
@@ -96,7 +100,8 @@ uint64_t FN_bisect_near(const TREE_T *t, uint64_t hint, uint64_t key)
   ASSIGNS()
   POST(in_range, used_at(t, RET))
   POST(finds_key, !(G_p >= 1 && G_p <= T_RS(t) && T_IDX(t)[G_p] == key) || RET == G_p)
-  POST(else_neighbour, !(G_p >= 1 && G_p <= T_RS(t)) || neighbour(t, RET, key, G_p));
+  POST(else_neighbour, !(G_p >= 1 && G_p <= T_RS(t)) || neighbour(t, RET, key, G_p))
+  POST(for_every_position, found_or_adjacent(t, RET, key));     /* the same two facts for all positions at once: what callers use */
 
 /* ---- insert(key, data): map update ---- */
 #define G_stack _ZZN23Parma_Polyhedra_Library7CO_Tree32redistribute_elements_in_subtreeEmmmmRK10__gmp_exprIA1_12__mpz_structS3_EbE5stack
@@ -216,5 +221,56 @@ void FN_rebalance(TITER_T *result, TREE_T *t, TITER_T *itr, uint64_t key, const 
   ASSIGNS(TREE_FRAME(t), *result, __CPROVER_object_whole(&G_stack))
   POST(shape, T_RS(t) == RS && tree_shape(t, 0))
   POST(map_updated, coef_eq(lookup(t, G_k), G_k == key ? G_new_data : G_old));
+
+/* ---- hinted insertion: insert(itr, key, data) with ANY iterator of the tree as hint (however stale) ----
+   The function locates the two in-order neighbours of `key' from the hint (bisect_near, replaced by its
+   contract, which is enforced by the bisect_near tasks) and hands the DEEPER one to insert_precise(), whose
+   documented precondition (a debug-only assertion in the code) is that the node is where the descent from the
+   root searching `key' stops.
+   insert_precise() itself is NOT discharged (section 10.2 of DESIGN.md): FN_insert_precise below is an ASSUMED
+   contract.  What this task decides is everything around it: the hint handling, that the callee's precondition
+   holds at every call site, the replacement path, the frame, and -- given the assumed map update -- the result. */
+SPEC uint64_t search_stop(const TREE_T *t, uint64_t key) {      /* tree_iterator::go_down_searching_key from the root */
+  uint64_t i = (T_RS(t) + 1) / 2;
+  for (int d = 0; d < 6; d++) {
+    uint64_t b = lowbit(i), c;
+    if (b == 1 || T_IDX(t)[i] == key) return i;
+    c = key < T_IDX(t)[i] ? i - b / 2 : i + b / 2;
+    if (T_IDX(t)[c] == UNUSED) return i;
+    i = c;
+  }
+  return i;
+}
+SPEC int arrays_ok(const TREE_T *t) {
+  return (T_IDX(t) == G_idx && T_DATA(t) == G_dat && T_RS(t) == RS) || (T_IDX(t) == POOL_IDX && T_DATA(t) == POOL_DAT && T_RS(t) == 2 * RS + 1);
+}
+void FN_insert_precise(TITER_T *result, TREE_T *t, uint64_t key, const MPZ_T *data, TITER_T *itr)
+  PRE(wf, tree_wf(t) && T_RS(t) == RS && ENTRY_ARRAYS(t) && T_SIZE(t) > 0 && key != UNUSED)
+  PRE(hint_is_the_search_stop, itr->f0 == t && itr->f1 == search_stop(t, key) && itr->f2 == lowbit(itr->f1))
+  PRE(ghost, coef_eq(lookup(t, G_k), G_old) && coef_eq(coef_of(data), G_new_data))
+  ASSIGNS(TREE_FRAME(t), *result)
+  /* pointer fields of a havocked object must be re-established with __CPROVER_pointer_equals: CBMC dereferences
+     through points-to sets, an equality on a nondeterministic pointer would leave later reads unconstrained */
+  POST(assumed_capacity, T_RS(t) == RS || T_RS(t) == 2 * RS + 1)
+  POST(assumed_arrays, T_RS(t) == RS ? (__CPROVER_pointer_equals(T_IDX(t), G_idx) && __CPROVER_pointer_equals(T_DATA(t), G_dat))
+                                     : (__CPROVER_pointer_equals(T_IDX(t), POOL_IDX) && __CPROVER_pointer_equals(T_DATA(t), POOL_DAT)))
+  POST(assumed_cached_end, __CPROVER_pointer_equals(t->f0.f0, &T_IDX(t)[T_RS(t) + 1]) && __CPROVER_pointer_equals(t->f1.f0, &T_IDX(t)[T_RS(t) + 1])
+                        && t->f0.f1 == &T_DATA(t)[T_RS(t) + 1] && t->f1.f1 == &T_DATA(t)[T_RS(t) + 1])   /* one-past-the-end data pointers: compared, never dereferenced */
+  POST(assumed_wf, tree_wf(t))
+  POST(assumed_map_updated, coef_eq(lookup(t, G_k), G_k == key ? G_new_data : G_old))
+  POST(assumed_size, (int)T_SIZE(t) == G_old_size + (G_key_was_present ? 0 : 1))
+  POST(assumed_result, __CPROVER_pointer_equals(result->f0, t) && result->f1 >= 1 && result->f1 <= T_RS(t) && T_IDX(t)[result->f1] == key && result->f2 == lowbit(result->f1)
+                       && coef_eq(coef_of(&T_DATA(t)[result->f1]), G_new_data));
+
+void FN_insert_hinted(ITER_T *result, TREE_T *t, ITER_T *itr, uint64_t key, const MPZ_T *data)
+  PRE(wf, tree_wf(t) && T_RS(t) == RS && RS != 0 && T_IDX(t) == G_idx && T_DATA(t) == G_dat && T_SIZE(t) > 0)
+  PRE(key, key != UNUSED && G_k != UNUSED)
+  PRE(any_iterator_of_the_tree, G_p >= 1 && G_p <= RS + 1 && (G_p == RS + 1 || G_idx[G_p] != UNUSED) && itr->f0 == &G_idx[G_p] && itr->f1 == &G_dat[G_p])
+  PRE(ghost, coef_eq(lookup(t, G_k), G_old) && coef_eq(coef_of(data), G_new_data) && (int)T_SIZE(t) == G_old_size && G_key_was_present == lookup(t, key).present)
+  ASSIGNS(TREE_FRAME(t), *result)
+  POST(wf, tree_wf(t))
+  POST(map_updated, coef_eq(lookup(t, G_k), G_k == key ? G_new_data : G_old))
+  POST(size, (int)T_SIZE(t) == G_old_size + (G_key_was_present ? 0 : 1))
+  POST(result_points_to_key, *result->f0 == key && coef_eq(coef_of(result->f1), G_new_data));
 #endif
 #endif
